@@ -5,9 +5,19 @@
 //                      "c<id>" from inside DIR), reads the five files back from disk and prints
 //                      "<aux>|<nodes>|<pl>|<nets>|<scl> # <hpwl>" with the bytes escaped (esc below)
 // HW <circuit>      -> "<hpwl>"   (used for the circuit the Python reader returned)
+// NG gid dir n (mode name len <circuit: len ints>)*n
+//                   -> a GROUP of exports into ONE directory DIR/g<gid>/<dir> (dir may be nested and contain dots; created),
+//                      made one after the other by this process with the working directory set to that directory:
+//                      mode 0: exportIspd(name) with the name as given (bare "chip.v2", "./chip.v2", or with a relative
+//                      directory part "sub.x/chip", whose directory is created); mode 1: exportIspd(<absolute path of
+//                      that directory>/name).  The same name may occur twice (the later export overwrites).  When the
+//                      whole group is written, the five files of every entry are read back from disk:
+//                      "<aux>|<nodes>|<pl>|<nets>|<scl> # <hpwl of that entry's circuit>" joined by " || "
 // <circuit> = ncells (w h fixed obstruction polarity x y orient)* nnets (npins (cell xo yo)*)* nrows (minX maxX minY maxY orient)*
 //             orient 0..9 = N S W E FN FS FW FE INVALID UNKNOWN; polarity 0..4 = ANY SAME OPPOSITE NW SE
+#include <filesystem>
 #include <fstream>
+#include <sstream>
 #include <unistd.h>
 #include "coloquinte.hpp"
 #include "vh.hpp"
@@ -114,6 +124,34 @@ static std::string genCircuit(SplitMix &g) {
   return s.str();
 }
 
+static std::string gBase;   // absolute path of DIR
+static void runGroup(const std::string &line) {
+  std::istringstream in(line); std::string tag, gid, dir; int n = 0;
+  in >> tag >> gid >> dir >> n;
+  std::string dg = gBase + "/g" + gid + "/" + dir;
+  std::filesystem::create_directories(dg);
+  std::vector<std::string> names; std::vector<long long> hp;
+  for (int e = 0; e < n; ++e) {
+    int mode = 0, len = 0; std::string name; in >> mode >> name >> len;
+    Reader r; r.v.resize(len); for (int k = 0; k < len; ++k) in >> r.v[k];
+    if (!in) throw std::runtime_error("short NG line");
+    Circuit c = readCircuit(r);
+    std::filesystem::create_directories(std::filesystem::path(dg + "/" + name).parent_path());
+    if (chdir(dg.c_str()) != 0) throw std::runtime_error("cannot chdir to the group directory");
+    c.exportIspd(mode == 1 ? dg + "/" + name : name);
+    if (chdir(gBase.c_str()) != 0) throw std::runtime_error("cannot chdir back");
+    names.push_back(name); hp.push_back(c.hpwl());
+  }
+  std::string out;
+  const char *ext[5] = {".aux", ".nodes", ".pl", ".nets", ".scl"};
+  for (size_t e = 0; e < names.size(); ++e) {
+    if (e) out += " || ";
+    for (int k = 0; k < 5; ++k) { if (k) out += "|"; out += esc(slurp(dg + "/" + names[e] + ext[k])); }
+    out += " # " + std::to_string(hp[e]);
+  }
+  printf("%s\n", out.c_str());
+}
+
 int main(int argc, char **argv) {
   std::string mode = argc > 1 ? argv[1] : "run";
   if (mode == "gen") {
@@ -124,13 +162,16 @@ int main(int argc, char **argv) {
   }
   std::string dir = argc > 2 ? argv[2] : ".";
   if (chdir(dir.c_str()) != 0) { fprintf(stderr, "cannot chdir to %s\n", dir.c_str()); return 2; }
+  { char buf[4096]; if (!getcwd(buf, sizeof buf)) return 2; gBase = buf; }
   vh_install(); vh_silence();
   std::string line;
   while (std::getline(std::cin, line)) {
     if (line.size() < 3) { printf("\n"); continue; }
     if (sigsetjmp(vh_jmp, 1)) { printf("%s\n", vh_signame()); fflush(stdout); continue; }
+    if (chdir(gBase.c_str()) != 0) return 2;
     try {
-      if (line[0] == 'E') {
+      if (line[0] == 'N') runGroup(line);
+      else if (line[0] == 'E') {
         size_t sp = line.find(' ', 3);
         std::string id = line.substr(3, sp - 3);
         Reader r; r.v = vh_ints(line.substr(sp + 1));
